@@ -398,10 +398,7 @@ namespace ipr {
             else
                pp << token(delimiters[0]) << xpr_expr(e.expr()) << token(delimiters[1]);
          }
-         void visit(const Expr& e) override
-         {
-            pp << token('(') << xpr_expr(e) << token(')');
-         }
+         void visit(const Expr&) override;
          void visit(const Decl& d) override { d.name().accept(*this); }
       };
 
@@ -1247,7 +1244,7 @@ namespace ipr {
       }
 
       void visit(const Type& t) final { pp << xpr_type(t); }
-      void visit(const Expr& e) final { pp << xpr_assignment_expression(e); }
+      void visit(const Expr& e) override { pp << xpr_assignment_expression(e); }
       void visit(const Stmt& s) final { pp << xpr_stmt(s); }
       void visit(const Decl& d) final
       {
@@ -1264,6 +1261,31 @@ namespace ipr {
       xpr_expr_visitor impl(printer);
       x.expr.accept(impl);
       return printer;
+   }
+
+   // An expression that the current grammar level does not recognize is parenthesized
+   // and printed again from the most general level.  If no level at all recognizes it,
+   // there is nothing to print it with: report the missing overrider instead of
+   // parenthesizing it forever.
+   void xpr::Primary_expr::visit(const Expr& e)
+   {
+      struct Last_resort : xpr_expr_visitor {
+         using xpr_expr_visitor::xpr_expr_visitor;
+         void visit(const Expr& x) final
+         {
+            struct Terminal : xpr::Assignment_expr {
+               using xpr::Assignment_expr::Assignment_expr;
+               void visit(const Expr& y) final { Missing_overrider{ }(y); }
+            };
+            Terminal impl { pp };
+            x.accept(impl);
+         }
+      };
+
+      pp << token('(');
+      Last_resort impl { pp };
+      e.accept(impl);
+      pp << token(')');
    }
 
    //  -- Types --
